@@ -72,6 +72,23 @@ Theorem template_skeleton_invariant : forall t rest s1 s2, tpl_ok QN t rest = tr
 Proof. intros t rest s1 s2 H. rewrite !quote_seq_is_quote. exact (tpl_skeleton_invariant t rest s1 s2 H). Qed.
 Print Assumptions template_skeleton_invariant.
 
+(* General form: the planner may wrap the value ('%...%' for LIKE, '^(?:...)$' for anchored regexes): the
+   shape's texts then contain the quotes and the wrapping, the places lie inside literal bodies, and what
+   is written there is the escape loop's output for the value.  If, running the lexer over the texts
+   alone, every place is inside the body of a string literal (tplq_ok), the token skeleton is the same for
+   ALL values.  This is the theorem instantiated on every baseline statement of the correspondence. *)
+Theorem statement_shape_invariant : forall t rest s1 s2, tplq_ok QN t rest = true ->
+  skeleton (lex (fill t rest (esc_seq gen_escape_table s1))) =
+  skeleton (lex (fill t rest (esc_seq gen_escape_table s2))).
+Proof. intros t rest s1 s2 H. rewrite !esc_seq_is_esc. exact (tplq_skeleton_invariant t rest s1 s2 H). Qed.
+Print Assumptions statement_shape_invariant.
+
+Example shape_example_wrapped :
+  let '(t0, rest) := split_all "zqxmark"
+    "SELECT 1 WHERE ((match(val, '^(?:zqxmark)$')) == (1)) and ((like(samples.string, '%zqxmark%')) == (1)) -- x" in
+  List.length rest = 2%nat /\ tplq_ok QN t0 rest = true.
+Proof. vm_compute. split; reflexivity. Qed.
+
 (* a real two-place statement (fingerprint selection of {a="zqxmark"}), split at the marker's literal *)
 Example shape_example :
   let '(t0, rest) := split_all (quote_seq "zqxmark")
